@@ -196,4 +196,18 @@ func init() {
 			{ID: "R09.2", Title: "maps are never updated in place (see C09)", Floor: 40, Run: ruleR092},
 		},
 	})
+	register(&Property{
+		ID:        "C14",
+		Technique: "table and wiring checks: mirror-image comparison of the cells of the = and < matrices, parameter-position dataflow of the derived operators against a reference table taken from the property text, registration/assertion type agreement, identity of the relation object used by all consumers, size-test dominance in container equality, use-before-error-check (R05.2)",
+		Explanation: "Decides the table and wiring conditions the algebraic laws need: the = and < matrices have a cell for both operand orders of every mixed pair and mirrored cells convert each operand type the same way; != > <= >= are computed from the objects registered for = and < with the operand order and evaluation order of the reference table (ordering first, so incomparable operands fail); " +
+			"every implementation asserts exactly the Go types it is registered for; switch, ~, groupByEqual, min/max/order and the element comparison of containers all call the object registered as the operator; container equality compares sizes on every path to 'equal'; no Go == on two language values; results are not used before their error was checked. Not decided: the laws on values themselves (transitivity etc. follow from Go's float/int/string semantics), NaN.",
+		Rules: []*Rule{
+			{ID: "R14.1", Title: "the = and < matrices are symmetric: mirrored cells exist and are mirror images", Floor: 11, Run: ruleR141},
+			{ID: "R14.2", Title: "derived operators != > <= >= route through the = and < objects in reference order", Floor: 4, Run: ruleR142},
+			{ID: "R14.3", Title: "registration/assertion agreement: operands are asserted to the Go type of their registered type id", Floor: 70, Run: ruleR143},
+			{ID: "R14.4", Title: "one equality, one ordering: all consumers call the registered operator object; no Go == on values", Floor: 3, Run: ruleR144},
+			{ID: "R14.7", Title: "container equality compares sizes before it can report equal", Floor: 2, Run: ruleR147},
+			{ID: "R05.2", Title: "no use of a value before the error returned with it was compared with nil (see C05)", Floor: 20, Run: ruleR052},
+		},
+	})
 }
